@@ -347,8 +347,10 @@ func main() {
 			fmt.Printf("%3d %s\n", i, j)
 		}
 		fmt.Printf("bufs=%d snaps=%d queue=%d\noracle: %q\n", c.Bufs, c.Snaps, c.QueueN, c.Oracle)
-		if c.Fail != nil {
-			fmt.Printf("failure: %+v\n", *c.Fail)
+		for _, f := range c.Fails {
+			fmt.Printf("failure: %+v\n", f)
+		}
+		if len(c.Fails) > 0 {
 			os.Exit(1)
 		}
 		return
